@@ -260,4 +260,9 @@ def check(ctx):
     rep.floor('R1', 'adjoint instances', n, 20)
     from . import c05b
     c05b.run(rep, model)
+    # R9w: adjoints of the orthogonal wavelet transforms (the inverse scaled
+    # by the whole cell volume, for every subset of transformed axes): the
+    # rule of C18-R9, an adjoint statement, evaluated here as well
+    from . import c18
+    c18._wavelet_adjoint(rep, model, rule='R9w')
     return rep
